@@ -70,7 +70,8 @@ CLAIMED.update({
         text='C06_sqlite_statement_shape (for EVERY table name: either nothing is executed or exactly SELECT * FROM <[A-Za-z0-9_]*[LF]?>;), C06_cleanup_has_no_linefeed + C06_query_text_ident_clean (an identifier cut from query text that passes the whitelist is purely '
              '[A-Za-z0-9_]*), C06_outputs_fresh / C06_no_source_mutation over the classified allocation and mutation points. The observation is the property: deep id()+content snapshots of input/join lists around every query kind (incl. failing), '
              'rbql-js array snapshots and identity, DataFrame.equals+dtypes, sha256 of sqlite and CSV files, 40 hostile identifiers traced at the sqlite connection.',
-        note='Partial: object identity / allocation behaviour of Python and JS primitives, pandas, sqlite3 and the OS open mode are modelled (classification tables), not verified; the snapshots tie them.',
+        note='Partial: the row-flow translator classifies expressions syntactically (alias / copy / fresh) and is trusted; nested mutable cell values, pandas, sqlite3 and the OS open mode are outside the flow model; the snapshots tie them.',
+        technique='Lean 4 theorems (soundness of a may-alias check over a heap machine) + source-derived (regenerated) row-flow obligation + identity/content snapshots (differential) on every invocation',
         ref='DESIGN.md section 7, C06'),
     'C07': dict(
         text='C07_header_width (+ DISTINCT COUNT, EXCEPT variants): whenever a header is produced it has as many names as every record has fields, for every list of column infos; C07_names (alias / source column / identifier / colK by output position), '
@@ -131,6 +132,32 @@ CLAIMED.update({
 NOT_YET = {}
 
 
+# additions of the later rounds: prepended to the claim text of the property
+ADDENDA = {
+    'C01': 'TEXT-TO-CODE (Model/Translate.lean, tied to translate_select_expression of both ports on every string of length <= 5 over {a . * , space} and on token sequences): '
+           'C01_star_items_translate_in_place(_js): a select list with `*`, `a.*`, `b.*` at ANY positions, any padding, any number, is rewritten to the canonical list expression; '
+           'C01_select_list_segments: that expression is `[run1] + V1 + [run2] ...`, the concatenation in item order of the plain runs and the star variables; C01_count_star_is_count_one; C01_empty_select_rejected; '
+           'counterexample theorems for the known limitations (`f(a1, *, a2)`, a final line feed). ',
+    'C05': 'TEXT-TO-CODE: C05_update_pairs_exact: an assignment list `v1 = r1, v2 = r2, ...` (targets a[.#a-zA-Z0-9[]_]*, right-hand sides in which the assignment scanner finds nothing) is cut into exactly the pairs (vi, strip ri), '
+           'in order; C05_translate_update_indices / _first_unknown (indices through the variable map; the FIRST unknown target is reported); C05_update_must_start_with_assignment; C05_kwarg_counterexample (`f(a2, a3 = 1)` is split: the documented limitation). '
+           'Tied to translate_update_expression of both ports (exhaustive short strings + token sequences). Tables with SHARED row objects (the same list several times, the table as its own join table) on both ports. ',
+    'C06': 'ROW FLOW, regenerated from the source on every run (tools/row_flow_scan.py -> Generated/RowFlow.lean: every binding of a row variable in the main-loop templates, select_simple / select_unnested / select_except and the five chain writers of rbql_engine.py and rbql.js, '
+           'classified alias / copy / fresh, every in-place mutation, every row handed to a writer; the select / update / except expression texts come from the real shallow_parse_input_query / translate_* functions): generated obligation C06_generated_row_flows_pass_check '
+           '(decide +kernel), whose meaning is C06_row_flow_sound: a heap machine in which rows are references; if the may-alias check passes then NO program made of the flow\'s statements, in any order and number, modifies an object of the caller\'s tables or hands one to a writer; '
+           'C06_row_flow_check_monotone (deleting statements cannot break it); counterexample theorems (UPDATE without the copy; out_fields aliasing the record) exhibit the mutated / leaked input object. D21 (CSV writers normalised nested lists of the input table in place) found and fixed. ',
+    'C07': 'TEXT-TO-COLUMN-INFO (the rbql-js header parser is modelled in Model/Translate.lean and tied on every string of length <= 5 over {a 1 [ ] ( , space}; the Python ast route is compared with it on generated select lists): '
+           'C07_root_spans_exact (one span per item for bracket-balanced items without a top-level comma; (rootSpans s).isOk = Balanced s), C07_span_kinds (aN, a[N], a.name, bare identifiers, star markers, a[literal], `expr AS name` for EVERY expr), '
+           'C07_span_info_sound (inversion: a non-null info correctly names its column - the guarantee stated in the source comment), C07_unquote_escaped_full (unquote_string undoes js_string_escape_column_name for EVERY name, after the repair D20), '
+           'C07_text_to_header_width / C07_text_header_matches_records: the hypothesis `aligned items infos` of C07_header_matches_records is DISCHARGED from the item texts for the JS port. Defects D19 (tuple item, Python) and D20 (control-character escapes, JS) found by these proofs/ties and fixed. ',
+    'C09': 'VARIABLE DISCOVERY: C09_basic_vars_iff: n is reported by parse_basic_variables (model) IFF `a<n>` occurs delimited by non-word characters (sound AND complete); C09_array_vars_sound / _complete (with the counterexample `a[1]a[2]`); C09_var_not_inside_identifier. Tied to both ports. ',
+    'C16': 'SHARED STATE made explicit: machines over module-level state g (steps may READ it); C16_frame_implies_independence: if no step writes g (the frame condition the regenerated footprint supports) every schedule gives the solo results; '
+           'C16_shared_write_counterexample / _history_counterexample: a step that records a decision in shared state (the shape of the seeded shared NumHandler) makes results depend on schedule and on history. ',
+    'C19': 'THE rbql.js ENGINE IS NOW MODELLED where it differs from the reference (Model/EngineJs.lean: JSON.stringify-keyed Set/Map for DISTINCT, stable_compare over keys+NR then reverse, compare_key_arrays of decoded group keys, JSON text of multi-column join keys, TopWriter ignoring its sub-writer); '
+           'the JS legs of C01-C07 and C19 are answered by runJs, cross-checked against the reference on every case. C19_json_identifies_all_records (JSON.stringify is injective on the value model, incl. jsNumRepr on all of Q), '
+           'C19_js_order_by_is_reference_order, C19_js_group_order_is_reference_order, C19_js_compare_agrees_on_uniform_keys (numbers / BMP strings), C19_js_astral_order_counterexample (UTF-16 vs code-point order). ',
+}
+
+
 def main():
     props = [json.loads(l) for l in open(os.path.join(ROOT, 'properties.jsonl'))]
     checks = []
@@ -146,7 +173,7 @@ def main():
                 'evidence_file': 'evidence/%s.json' % pid,
                 'replay_cmd_template': './check %s --replay {path}' % pid,
                 'engine': 'lean-model+correspondence',
-                'level_claimed': {'category': 'proof', 'text': c['text'], 'design_ref': c['ref']},
+                'level_claimed': {'category': 'proof', 'text': ADDENDA.get(pid, '') + c['text'], 'design_ref': c['ref']},
                 'level_note': c['note'],
                 'technique': c.get('technique', TECH),
             })
@@ -154,7 +181,7 @@ def main():
             na.append({'property_id': pid, 'reason': NOT_YET.get(pid, 'check not built yet in this round; planned in DESIGN.md section 10 (no claim is made until the model, theorems and correspondence exist)')})
     m = {
         'version': 1,
-        'setup_cmd': 'cd lean && lake build Rbql rbql_model RbqlGen',
+        'setup_cmd': './check setup',
         'hooks': {
             'guard': 'RBQL_VERIF (unused: no instrumentation was added to /repo; every observation point is public API)',
             'enable': 'not needed; checks import /repo/rbql-py via PYTHONPATH and require /repo/rbql-js/*.js by absolute path',
